@@ -67,12 +67,12 @@ func (r Role) Peer() Role { return 1 - r }
 
 // Protocol constants.
 const (
-	MagicValue  uint32 = 0x2BF5CA7E
-	SeedLength         = 16
-	MaxPadding         = 8192
-	KeyLen             = 16
-	IVLen              = 16
-	HeaderLength       = 4 + 4 // encrypted MAGIC_VALUE and PADLEN
+	MagicValue   uint32 = 0x2BF5CA7E
+	SeedLength          = 16
+	MaxPadding          = 8192
+	KeyLen              = 16
+	IVLen               = 16
+	HeaderLength        = 4 + 4 // encrypted MAGIC_VALUE and PADLEN
 )
 
 var padLabels = [2]string{"Initiator obfuscation padding", "Responder obfuscation padding"}
